@@ -3,6 +3,7 @@ package main
 // One history = one request driven through the real proxy with an event script placed on a millisecond timeline.
 
 import (
+	"strings"
 	"context"
 	"fmt"
 	"sort"
@@ -60,6 +61,10 @@ type Spec struct {
 	Events      []Event      `json:"events,omitempty"`
 	// the downstream sender (stream layer) returns an error from these calls: "hdr" (AppendHeaders), "data", "trl"
 	SenderErr   []string     `json:"sender_err,omitempty"`
+	// built-in filter histories (builtin.go): which route the request addresses, its body length, extra request headers
+	Service  string            `json:"service,omitempty"`
+	BodyLen  int               `json:"body_len,omitempty"`
+	Headers  map[string]string `json:"headers,omitempty"`
 	// time-out sources (ms; 0 = absent): route config, request headers, protocol-supplied variables
 	RouteGlobalMs int `json:"route_global_ms,omitempty"`
 	RouteTryMs    int `json:"route_try_ms,omitempty"`
@@ -150,6 +155,12 @@ func buildRequest(h *hist, connCtx context.Context) (context.Context, api.Header
 	if sp.NoMatch {
 		hm["service"] = "other"
 	}
+	if sp.Service != "" {
+		hm["service"] = sp.Service
+	}
+	for k, v := range sp.Headers {
+		hm[k] = v
+	}
 	if sp.OrigTag {
 		hm["x-tag"] = "orig"
 	}
@@ -168,6 +179,9 @@ func buildRequest(h *hist, connCtx context.Context) (context.Context, api.Header
 	var trailers api.HeaderMap
 	if sp.HasData {
 		data = buffer.NewIoBufferString("request-body")
+		if sp.BodyLen > 0 {
+			data = buffer.NewIoBufferString(strings.Repeat("x", sp.BodyLen))
+		}
 	}
 	if sp.HasTrailers {
 		trailers = protocol.CommonHeader(map[string]string{"x-rt": "1"})
